@@ -58,7 +58,7 @@ theorem Keeps.weaken {tid tid' : Nat} {A B : BState} (h : Keeps ρ tid' A B) (hl
 theorem pushScope_spec (B : BState) (cond : Nat) (oe cb : Option Nat) :
     ∃ full, (pushScope B cond oe cb).scopes = { id := B.nextId, cond := cond, full := full, onEntry := oe, combined := cb } :: B.scopes ∧
       (pushScope B cond oe cb).nextId = B.nextId + 1 ∧ (pushScope B cond oe cb).sigs = B.sigs ∧
-      (pushScope B cond oe cb).lastCond = B.lastCond ∧ (pushScope B cond oe cb).clash = B.clash ∧
+      (pushScope B cond oe cb).lastCond = B.lastCond ∧
       Ext B.nodes (pushScope B cond oe cb).nodes ∧
       (cond < B.nodes.size → full < (pushScope B cond oe cb).nodes.size) ∧
       (cond < B.nodes.size → (∀ sc ∈ B.scopes, sc.full < B.nodes.size) →
@@ -69,10 +69,10 @@ theorem pushScope_spec (B : BState) (cond : Nat) (oe cb : Option Nat) :
   unfold pushScope
   cases hs : B.scopes with
   | nil =>
-    refine ⟨cond, by simp, by simp, by simp, by simp, by simp, Ext.refl _, fun h => h, fun _ _ => rfl⟩
+    refine ⟨cond, by simp, by simp, by simp, by simp, Ext.refl _, fun h => h, fun _ _ => rfl⟩
   | cons parent rest =>
     simp only [mkNode]
-    refine ⟨(B.nodes.push (.and cond parent.full)).size, by simp, by simp, by simp, by simp, by simp,
+    refine ⟨(B.nodes.push (.and cond parent.full)).size, by simp, by simp, by simp, by simp,
       (Ext.push _ _).trans (Ext.push _ _), fun _ => by simp [Array.size_push], fun hc hf => ?_⟩
     have hp : parent.full < B.nodes.size := hf parent (by simp)
     rw [val_sig, val_and]
@@ -83,7 +83,7 @@ theorem WF.withNodes {B : BState} (h : WF B) {ns : Nodes} (e : Ext B.nodes ns) :
 theorem pushScope_wf {B : BState} (h : WF B) {cond : Nat} {oe cb : Option Nat} (hc : cond < B.nodes.size)
     (hoe : ∀ l, oe = some l → l < B.nodes.size) (hcb : ∀ c, cb = some c → c < B.nodes.size) :
     WF (pushScope B cond oe cb) := by
-  obtain ⟨full, h1, h2, h3, h4, _, h6, h7, _⟩ := pushScope_spec (ρ := []) B cond oe cb
+  obtain ⟨full, h1, h2, h3, h4, h6, h7, _⟩ := pushScope_spec (ρ := []) B cond oe cb
   refine ⟨?_, ?_, ?_, ?_, ?_⟩
   · rw [h3]; exact h.sigs.mono h6
   · rw [h3, h2]; intro x s hs; exact Nat.lt_succ_of_lt (h.sigInit x s hs)
@@ -102,13 +102,13 @@ theorem pushScope_wf {B : BState} (h : WF B) {cond : Nat} {oe cb : Option Nat} (
 
 theorem popScope_spec {B B' : BState} {n : Nat} {s : Scope} {rest : List Scope} (hs : B.scopes = s :: rest)
     (h : popScope B n = some B') :
-    B'.scopes = rest ∧ B'.sigs = B.sigs.take n ∧ B'.nextId = B.nextId ∧ B'.clash = B.clash ∧ Ext B.nodes B'.nodes ∧
+    B'.scopes = rest ∧ B'.sigs = B.sigs.take n ∧ B'.nextId = B.nextId ∧ Ext B.nodes B'.nodes ∧
     (match s.combined with
      | some c => B'.lastCond = some c
      | none =>
         match s.onEntry, B.lastCond with
         | some l, some lc =>
-            if lc ≠ l then B'.lastCond = some B.nodes.size ∧ B'.nodes = B.nodes.push (.or lc l)
+            if B.nextId ≠ s.id + 1 then B'.lastCond = some B.nodes.size ∧ B'.nodes = B.nodes.push (.or lc l)
             else B'.lastCond = some s.cond
         | _, _ => B'.lastCond = some s.cond) := by
   unfold popScope at h
@@ -117,37 +117,37 @@ theorem popScope_spec {B B' : BState} {n : Nat} {s : Scope} {rest : List Scope} 
   | some c =>
     simp only [hc, Option.some.injEq] at h
     subst h
-    exact ⟨rfl, rfl, rfl, rfl, Ext.refl _, rfl⟩
+    exact ⟨rfl, rfl, rfl, Ext.refl _, rfl⟩
   | none =>
     simp only [hc] at h
     cases ho : s.onEntry with
     | none =>
       simp only [ho, Option.some.injEq] at h
       subst h
-      exact ⟨rfl, rfl, rfl, rfl, Ext.refl _, rfl⟩
+      exact ⟨rfl, rfl, rfl, Ext.refl _, rfl⟩
     | some l =>
       cases hl : B.lastCond with
       | none =>
         simp only [ho, hl, Option.some.injEq] at h
         subst h
-        exact ⟨rfl, rfl, rfl, rfl, Ext.refl _, rfl⟩
+        exact ⟨rfl, rfl, rfl, Ext.refl _, rfl⟩
       | some lc =>
         simp only [ho, hl, mkNode] at h
-        by_cases hne : lc ≠ l
+        by_cases hne : B.nextId ≠ s.id + 1
         · simp only [hne, ne_eq, not_false_eq_true, if_true, Option.some.injEq] at h
           subst h
-          refine ⟨rfl, rfl, rfl, rfl, Ext.push _ _, ?_⟩
+          refine ⟨rfl, rfl, rfl, Ext.push _ _, ?_⟩
           simp [hne]
         · simp only [hne, if_false, Option.some.injEq] at h
           subst h
-          refine ⟨rfl, rfl, rfl, rfl, Ext.refl _, ?_⟩
+          refine ⟨rfl, rfl, rfl, Ext.refl _, ?_⟩
           simp [hne]
 
 theorem popScope_wf {B B' : BState} {n : Nat} (hw : WF B) (h : popScope B n = some B') : WF B' ∧ ∃ s rest, B.scopes = s :: rest := by
   cases hs : B.scopes with
   | nil => simp [popScope, hs] at h
   | cons s rest =>
-    obtain ⟨h1, h2, h3, h4, h5, h6⟩ := popScope_spec hs h
+    obtain ⟨h1, h2, h3, h5, h6⟩ := popScope_spec hs h
     refine ⟨⟨?_, ?_, ?_, ?_, ?_⟩, s, rest, rfl⟩
     · intro x sg hsg
       rw [h2, List.getElem?_take] at hsg
